@@ -434,6 +434,20 @@ func MasterMain(c *Check, ctx *Ctx, verifDir string, unitFilter string) int {
 	if nUnknown > 25 {
 		fmt.Printf("(%d further violations not written out)\n", nUnknown-25)
 	}
+	if len(viols) > 0 {
+		hist := map[string]int{}
+		for _, v := range viols {
+			hist[v.Check+" @ "+v.API]++
+		}
+		var ks []string
+		for k := range hist {
+			ks = append(ks, k)
+		}
+		sort.Strings(ks)
+		for _, k := range ks {
+			fmt.Printf("  violations by clause: %-60s %d\n", k, hist[k])
+		}
+	}
 	// evidence
 	cov := map[string]interface{}{
 		"evaluations":         evals,
@@ -528,6 +542,7 @@ func RunUnitJSON(c *Check, ctx *Ctx, name string) int {
 func RunInFlavour(c *Check, ctx *Ctx, bin, name string, r *Result) {
 	cmd := exec.Command(bin, "-prop", c.ID, "-tier", ctx.Tier, "-seed", fmt.Sprint(ctx.Seed), "-rununit", name)
 	cmd.Stderr = os.Stderr
+	cmd.Env = append(os.Environ(), "VERIF_FLAVOUR_CHILD=1")
 	out, err := cmd.Output()
 	if err != nil {
 		r.ToolError = fmt.Sprintf("flavour binary %s failed on unit %s: %v", bin, name, err)
